@@ -280,6 +280,10 @@ func runC10(r *Run, replay *Case) {
 		c10NoFS(r)
 		return
 	}
+	if replay != nil && replay.Input["kind"] == "processor-history" {
+		c10ProcessorHistory(r)
+		return
+	}
 	if replay != nil && replay.Input["steps"] != nil {
 		c10FileHistory(r)
 		return
@@ -397,6 +401,7 @@ func runC10(r *Run, replay *Case) {
 	}
 	c10NoFS(r)
 	c10FileHistory(r)
+	c10ProcessorHistory(r)
 }
 
 // c10FileHistory: "the call's own templates" are the files as they are NOW. A file that was rendered and is then replaced by another
